@@ -78,6 +78,15 @@ def convert(path):
     from decaylanguage.modeling.ampgen2goofit import ampgen2goofit, ampgen2goofitpy
 
     out = {}
+    if isinstance(path, (list, tuple)):
+        # a longer model is converted first in the same process (string-returning mode, both languages): what the
+        # second conversion returns must not depend on it
+        warm, path = path
+        for fn in (ampgen2goofit, ampgen2goofitpy):
+            try:
+                fn(warm, ret_output=True)
+            except Exception:  # noqa: BLE001
+                pass
     for lang, fn in (("cpp", ampgen2goofit), ("py", ampgen2goofitpy)):
         try:
             out[lang] = fn(path, ret_output=True)
@@ -270,15 +279,16 @@ def str_name(n):
     return n
 
 
-def check_ast(ast, label="generated"):
+def check_ast(ast, label="generated", after_long=False):
     fd, path = tempfile.mkstemp(suffix=".opt", prefix="c19_")
     with os.fdopen(fd, "w") as f:
         f.write(ampgen.render(ast))
     try:
-        out = run_forked(convert, path)
+        out = run_forked(convert, [os.path.join(REPO, SHIPPED), path] if after_long else path)
     finally:
         os.unlink(path)
-    return analyse(ast, out, label)
+    # (the signature of the known finding F9 must stay what KNOWN_FINDINGS.txt lists)
+    return [(s_ + ("@after-long-conversion" if after_long and not s_.startswith("undeclared:") else ""), d) for s_, d in analyse(ast, out, label + (" (after a long conversion in the same process)" if after_long else ""))]
 
 
 def check_shipped():
@@ -373,7 +383,7 @@ def canon_lines(lines):
 def exec_case(kind, payload):
     isolate.warm(sorted(ampgen.PID))
     if kind == "choices":
-        return check_ast(dbe.replay(gen, tuple(payload["choices"])), f"choices {payload['choices']}")
+        return check_ast(dbe.replay(gen, tuple(payload["choices"])), f"choices {payload['choices']}", payload.get("after_long", False))
     if kind == "shipped":
         return check_shipped()
     if kind == "cli":
@@ -385,7 +395,7 @@ def work(items):
     fails, outs = [], set()
     for kind, payload, w in items:
         if kind == "choices":
-            f = check_ast(dbe.replay(gen, tuple(payload["choices"])), f"choices {payload['choices']}")
+            f = check_ast(dbe.replay(gen, tuple(payload["choices"])), f"choices {payload['choices']}", payload.get("after_long", False))
         elif kind == "shipped":
             f = check_shipped()
         else:
@@ -401,6 +411,7 @@ def run(ctx):
     bound = 3 if ctx.thorough else 2
     stats = {}
     items = [("choices", {"choices": list(ch)}, nd) for ch, nd, _a in dbe.explore(gen, bound, stats)]
+    items += [("choices", {"choices": it[1]["choices"], "after_long": True}, it[2] + 1) for it in list(items) if it[2] <= 1]
     n_dbe = len(items)
     items.append(("shipped", {}, 50))
     items.append(("cli", {"which": "small"}, 60))
